@@ -258,6 +258,8 @@ def run_history(S, vsc, ops, scns):
                 elif k in ("randomize", "with"):
                     o, scn, names = objs[op["obj"]]
                     o.set_randstate(RandState.mkFromSeed(op["seed"]))
+                    import treelib
+                    rec["tree"] = [treelib.shape(o.get_model()), None]
                     FAULT["pre"] = o if op.get("fault") == "pre" else None
                     FAULT["post"] = o if op.get("fault") == "post" else None
                     try:
@@ -277,6 +279,8 @@ def run_history(S, vsc, ops, scns):
         rec["stacks"] = read_stacks(vsc, [x[0] for x in objs.values()])
         if k in ("randomize", "with") and op["obj"] in objs:
             o, scn, names = objs[op["obj"]]
+            if rec.get("tree"):
+                rec["tree"][1] = treelib.shape(o.get_model())
             rec["values"] = S.get_values(o, scn) + [[int(x) for x in getattr(o, l["name"])] for l in scn.get("lists") or []]
             rsets, uncon, bounds, btors, draws = S.split_events(list(S.EV))
             rec["hard"] = [[S.sexp(t) for t in S.parse_btor(bt, rs["n_soft"])["hard"]] for rs, bt in zip(rsets, btors)]
@@ -433,6 +437,16 @@ def _worker(args):
                     break
             if isinstance(model, dict) and "__err__" in model:
                 res["corr"].append({"what": "ctor-model-error", "case": case, "model": model["__err__"], "impl": None})
+            # the statement tree of the object around every call, the failed one included, against the override/rollback model
+            tr = [(k, r["tree"]) for k, r in enumerate(run) if r.get("tree") and r["tree"][1] is not None]
+            for (k, (tb, ta)), tm in zip(tr, drv.batch([{"op": "t.rollback", "tree": t[0]} for _, t in tr])):
+                cnt("tree_checks")
+                if "__err__" in tm:
+                    res["corr"].append({"what": "override-model-error", "case": case, "model": tm["__err__"], "impl": None})
+                elif not tm["clean"] or tm["after"] != ta:
+                    res["corr"].append({"what": "statement-tree-after-op[%d] (Ovr.Stmt.call; C16R.calls_restore)" % k, "case": case,
+                                        "model": tm["after"] if tm["clean"] else "no override outside a call", "impl": ta if tm["clean"] else tb})
+                    break
             if isinstance(model, list) and model[len(base)]["raised"] != fr["raised"]:
                 res["corr"].append({"what": "fault-op-raised", "case": case, "model": model[len(base)]["raised"], "impl": fr["raised"]})
             # later calls behave as if the failed call never happened
@@ -686,8 +700,8 @@ def outside_twins(ck, seed, n_rounds):
 
 def main():
     tier, seed, replay = common.parse_args(sys.argv[1:])
-    ck = common.Check("C16", tier, seed, ["C16"])
-    obligations = common.obligations_for(["C16"])
+    ck = common.Check("C16", tier, seed, ["C16", "C16Rollback"])
+    obligations = common.obligations_for(["C16", "C16Rollback"])
     common.setup_repo_path()
     n = 600 if tier == "thorough" else 24
     jobs = 16 if tier == "thorough" else 8
